@@ -606,6 +606,25 @@ class Box:
         return 0
 
 
+CYCLE_USE_FNS = {
+    'getstate': lambda sp: sp.__getstate__(),
+    'reduce': lambda sp: sp.__reduce_ex__(4),
+    'dumps': lambda sp: pickle.dumps(sp),
+    'copy': lambda sp: copy.copy(sp),
+    'deepcopy': lambda sp: copy.deepcopy(sp),
+    'repr': lambda sp: repr(sp),
+    'hash': lambda sp: hash(sp),
+    'eq': lambda sp: (sp == sp, sp != optree.treespec_leaf()),
+    'inspect': lambda sp: (sp.paths(), sp.accessors(), sp.entries(), sp.children(), sp.one_level(), sp.type, sp.kind),
+    'unflatten': lambda sp: sp.unflatten([0] * sp.num_leaves),
+    'walk': lambda sp: (sp.walk([0] * sp.num_leaves, lambda tp, meta, ch: None, None), sp.traverse([0] * sp.num_leaves, lambda ch: None, None)),
+    'compose': lambda sp: (sp.compose(sp), optree.treespec_tuple([sp, sp], namespace='cyc'), sp.broadcast_to_common_suffix(sp)),
+    'transform': lambda sp: optree.treespec_transform(sp, lambda x: x, lambda x: x),
+    'prefix': lambda sp: (sp.is_prefix(sp), sp.flatten_up_to(sp.unflatten([0] * sp.num_leaves))),
+}
+CYCLE_USES = tuple(CYCLE_USE_FNS)
+
+
 def run_cycle(route, nest, tape, ctx):
     """Build a treespec that is reachable only from an object it holds in one of its node payloads; return a weakref
     to that object (or None if the route is not applicable).  Everything else is dropped when this function returns."""
@@ -654,6 +673,14 @@ def run_cycle(route, nest, tape, ctx):
             box.again = [spec, box] if tape.draw(2, 'again') else None
         if tape.draw(3, 'via-child') == 0 and spec.num_children:
             box.extra = spec.children()  # treespecs derived from the cyclic one share the payload objects
+        # the treespec has a life before it is dropped: operations that read its payload (and may park references to it
+        # in a state tuple, a copy, a buffer) must not make it immortal
+        for _ in range(tape.draw(4, 'cycle-uses')):
+            use = tape.choice(CYCLE_USES, 'cycle-use')
+            try:
+                CYCLE_USE_FNS[use](spec)
+            except Exception:  # noqa: BLE001 - a Box is not hashable-by-value / picklable in every route; irrelevant here
+                pass
         return weakref.ref(box)
     finally:
         cyc_reg.unregister_all()
